@@ -370,7 +370,9 @@ func (w *Writer) WriteCSM(csm io.ColumnSeriesMap, isVariableLength bool) error {
 	}
 	for _, pw := range prepared {
 		if err := w.WriteRecords(pw.times, pw.rowData, pw.dbDSV, pw.tbi); err != nil {
-			return fmt.Errorf("write records to %v: %w", pw.tbi, err)
+			// (the path, not the struct: formatting *TimeBucketInfo reads its sync.Once while other
+			// goroutines may be inside it)
+			return fmt.Errorf("write records to %s: %w", pw.tbi.Path, err)
 		}
 	}
 
